@@ -1,7 +1,7 @@
 (* Non-vacuity examples for C19: concrete states meeting the theorems' hypotheses, and the concrete
    runs behind the `_refuted` theorems. *)
 From Coq Require Import List String Bool Arith.
-From PAFC19 Require Import Syntax Gen Model Proofs Proofs2 Proofs3 Proofs4.
+From PAFC19 Require Import Syntax Gen Model Proofs Proofs2 Proofs3 Proofs4 Proofs5.
 Import ListNotations.
 Open Scope string_scope.
 Open Scope list_scope.
@@ -24,9 +24,9 @@ Example duplicate_steps_break_sub :
   get_steps md5 [a; b; a] (Some (rev_id md5 [a])) = [b].
 Proof. vm_compute. reflexivity. Qed.
 
-(* hypotheses of C19_fixpoint_partial: a file without revision table, first session commits *)
-Example partial_hypotheses : d_rev (mkdb base_schema RNoTable 0) <> REmpty /\ In OpCommit [OpWrite; OpCommit].
-Proof. split; [discriminate | right; left; reflexivity]. Qed.
+(* hypotheses of C19_unrepaired_fixpoint_partial: no revision table, first session commits, no rollback *)
+Example partial_hypotheses : d_rev (mkdb base_schema RNoTable 0) <> REmpty /\ In OpCommit [OpWrite; OpCommit] /\ ~ In OpRollback [OpWrite; OpCommit].
+Proof. split; [discriminate|]. split; [right; left; reflexivity|]. intros [H|[H|H]]; try discriminate H; exact H. Qed.
 
 Example commit_first_then_identity :
   let h := run_history real_md5 orm_schema steps (File (mkdb base_schema RNoTable 2)) [[OpCommit]; []; [OpWrite]] in
@@ -100,3 +100,15 @@ Proof. vm_compute. split; reflexivity. Qed.
 Example exact_upto_is_a_revision_or_none :
   Nat.leb exact_upto (List.length steps) = true \/ exact_upto = S (List.length steps).
 Proof. first [ left; vm_compute; reflexivity | right; vm_compute; reflexivity ]. Qed.
+
+(* C19_released_revisions_recognised / C19_code_released_applies_missing_once: there are pinned ids, and
+   some of them are earlier than the current revision *)
+Example pinned_ids_exist : 0 < List.length pinned_revision_ids /\ 1 < List.length steps.
+Proof. vm_compute. split; repeat constructor. Qed.
+
+(* C19_code_fixpoint on the code as it is: read-only opens, a rollback, an empty revision table, a new file *)
+Example code_read_only_opens :
+  let h := code_history (File (mkdb base_schema RNoTable 2)) [[]; [OpWrite; OpRollback]; []] in
+  map (fun o => List.length (ok_stmts_of (s_trace o))) (fst h) = [List.length (raw_stmts steps); 0; 0]
+  /\ map (fun o => rev_eqb (d_rev (s_disk o)) (RRow (Some latest_id)) && Nat.eqb (d_data (s_disk o)) 2) (fst h) = [true; true; true].
+Proof. vm_compute. split; reflexivity. Qed.
